@@ -1925,6 +1925,76 @@ theorem markDirect_mem (h : List Level) (r : Record) (le : Level × Entry)
   refine ⟨(l, e), hm0, ?_⟩
   split at he <;> (cases he; exact ⟨rfl, rfl⟩)
 
+/-- a run whose tree `t1` has only the leaf level (same leaves as the stored
+tree) never fails and backfills every cell to a root-to-leaf path of the stored
+tree, coarser levels flagged as inferred -/
+theorem mapPipeline_leafonly_paths {κ} (t0 t1 : RawTree) (cfg : Config) (vote : Oracle κ) (ll : Level)
+    (ids : List CellId) (cells : List κ) (order : List Nat)
+    (hrun : runTree t0 cfg = .ok t1) (hfh : t1.hierarchy = [ll])
+    (hnodes1 : t1.nodesAt ll = t0.nodesAt ll)
+    (hleaf : t0.leafLevel = some ll)
+    (hwf0 : wfb t0 = true) (hwf : wfb t1 = true) (hv : VoteOK t1 vote)
+    (hlen : ids.length = cells.length) (hnd : ids.Nodup)
+    (hproc : 1 ≤ cfg.nProc) (hcs : 1 ≤ cfg.chunkSize)
+    (horder : order.Perm (List.range
+      (chunks cells.length (effChunk cells.length cfg.nProc cfg.chunkSize)).length)) :
+    ∃ out, mapPipeline t0 cfg vote ids cells order = .ok out ∧ out.length = cells.length ∧
+      ∀ o ∈ out, ∃ path : Level → Node,
+        (∀ cp ∈ pairsOf t0.hierarchy.reverse,
+          t0.childToParent cp.1 (path cp.1) = some (path cp.2)) ∧
+        ∀ l ∈ t0.hierarchy, path l ∈ t0.nodesAt l ∧
+          ∃ e', o.levels.lookup l = some e' ∧ e'.assignment = path l ∧
+            (l ≠ ll → e'.direct = some false ∧ e'.ru = none) := by
+  have hnd0 := wfb_nodup_hierarchy hwf0
+  rw [mapPipeline_spec t0 t1 cfg vote ids cells order hrun hwf hv hlen hnd hproc hcs horder]
+  unfold backfill
+  -- every element is a leaf-only record
+  have hel : ∀ r ∈ (List.zipWith (mkRecord t1 vote) ids cells).map
+      (markDirect t1.hierarchy),
+      ∃ e, r.levels = [(ll, e)] ∧ e.assignment ∈ t0.nodesAt ll := by
+    intro r hr
+    obtain ⟨r0, hr0, rfl⟩ := List.mem_map.mp hr
+    obtain ⟨id, c, rfl⟩ := mem_zipWith_exists _ _ _ _ hr0
+    have hkeys := record_keys hwf hv id c
+    rw [hfh] at hkeys
+    generalize hR : markDirect [ll] (mkRecord t1 vote id c) = R at hkeys
+    cases hlv : R.levels with
+    | nil => rw [hlv] at hkeys; cases hkeys
+    | cons a rest =>
+      rw [hlv] at hkeys
+      simp only [List.map_cons, List.cons.injEq, List.map_eq_nil_iff] at hkeys
+      obtain ⟨ha, hrest⟩ := hkeys
+      subst hrest
+      obtain ⟨l, e⟩ := a
+      simp only at ha
+      subst ha
+      refine ⟨e, by rw [hfh, hR, hlv], ?_⟩
+      have hm : (l, e) ∈ (markDirect [l] (mkRecord t1 vote id c)).levels := by
+        rw [hR, hlv]; simp
+      obtain ⟨le0, hle0, h1, h2⟩ := markDirect_mem _ _ _ hm
+      obtain ⟨w, hw, hp⟩ := walk_path hwf hv c
+      simp only [mkRecord, walkD, hw] at hle0
+      have := hp.2.1 le0 hle0
+      rw [← h1, ← h2, hnodes1] at this
+      exact this
+  obtain ⟨out, hout, hlen', hpt⟩ := mapM_ok_of_forall
+    (backfillPairs t0.dropCells (pairsOf t0.dropCells.hierarchy.reverse)) _
+    (fun r hr => by
+      obtain ⟨e, hre, hne⟩ := hel r hr
+      obtain ⟨r', _, h, _⟩ := backfill_flatten_spec hwf0 hleaf r e hre hne
+      exact ⟨r', h⟩)
+  refine ⟨out, hout, by simp [hlen', hlen], ?_⟩
+  intro o ho
+  obtain ⟨i, hi, rfl⟩ := List.getElem_of_mem ho
+  have hi' : i < ((List.zipWith (mkRecord t1 vote) ids cells).map
+      (markDirect t1.hierarchy)).length := by omega
+  have hf := hpt i _ out[i] (List.getElem?_eq_getElem hi') (List.getElem?_eq_getElem hi)
+  obtain ⟨e, hre, hne⟩ := hel _ (List.getElem_mem hi')
+  obtain ⟨r', path, h, _, _, _, hlink, hall⟩ := backfill_flatten_spec hwf0 hleaf _ e hre hne
+  rw [hf] at h
+  cases h
+  exact ⟨path, hlink, hall⟩
+
 /-- a flattened run never fails and backfills every cell to a root-to-leaf path
 of the stored tree, coarser levels flagged as inferred -/
 theorem mapPipeline_flatten_paths {κ} (t0 : RawTree) (cfg : Config) (vote : Oracle κ) (ll : Level)
@@ -1942,58 +2012,11 @@ theorem mapPipeline_flatten_paths {κ} (t0 : RawTree) (cfg : Config) (vote : Ora
           t0.childToParent cp.1 (path cp.1) = some (path cp.2)) ∧
         ∀ l ∈ t0.hierarchy, path l ∈ t0.nodesAt l ∧
           ∃ e', o.levels.lookup l = some e' ∧ e'.assignment = path l ∧
-            (l ≠ ll → e'.direct = some false ∧ e'.ru = none) := by
-  have hnd0 := wfb_nodup_hierarchy hwf0
-  have hrun : runTree t0 cfg = .ok t0.flatten := by simp [runTree, hdrop, hflat]
-  have hfh : t0.flatten.hierarchy = [ll] := by simp only [RawTree.flatten, hleaf]
-  rw [mapPipeline_spec t0 t0.flatten cfg vote ids cells order hrun hwf hv hlen hnd hproc hcs horder]
-  unfold backfill
-  -- every element is a leaf-only record
-  have hel : ∀ r ∈ (List.zipWith (mkRecord t0.flatten vote) ids cells).map
-      (markDirect t0.flatten.hierarchy),
-      ∃ e, r.levels = [(ll, e)] ∧ e.assignment ∈ t0.nodesAt ll := by
-    intro r hr
-    obtain ⟨r0, hr0, rfl⟩ := List.mem_map.mp hr
-    obtain ⟨id, c, rfl⟩ := mem_zipWith_exists _ _ _ _ hr0
-    have hkeys := record_keys hwf hv id c
-    rw [hfh] at hkeys
-    generalize hR : markDirect [ll] (mkRecord t0.flatten vote id c) = R at hkeys
-    cases hlv : R.levels with
-    | nil => rw [hlv] at hkeys; cases hkeys
-    | cons a rest =>
-      rw [hlv] at hkeys
-      simp only [List.map_cons, List.cons.injEq, List.map_eq_nil_iff] at hkeys
-      obtain ⟨ha, hrest⟩ := hkeys
-      subst hrest
-      obtain ⟨l, e⟩ := a
-      simp only at ha
-      subst ha
-      refine ⟨e, by rw [hfh, hR, hlv], ?_⟩
-      have hm : (l, e) ∈ (markDirect [l] (mkRecord t0.flatten vote id c)).levels := by
-        rw [hR, hlv]; simp
-      obtain ⟨le0, hle0, h1, h2⟩ := markDirect_mem _ _ _ hm
-      obtain ⟨w, hw, hp⟩ := walk_path hwf hv c
-      simp only [mkRecord, walkD, hw] at hle0
-      have := hp.2.1 le0 hle0
-      rw [← h1, ← h2, flatten_nodesAt_leaf hnd0 hleaf] at this
-      exact this
-  obtain ⟨out, hout, hlen', hpt⟩ := mapM_ok_of_forall
-    (backfillPairs t0.dropCells (pairsOf t0.dropCells.hierarchy.reverse)) _
-    (fun r hr => by
-      obtain ⟨e, hre, hne⟩ := hel r hr
-      obtain ⟨r', _, h, _⟩ := backfill_flatten_spec hwf0 hleaf r e hre hne
-      exact ⟨r', h⟩)
-  refine ⟨out, hout, by simp [hlen', hlen], ?_⟩
-  intro o ho
-  obtain ⟨i, hi, rfl⟩ := List.getElem_of_mem ho
-  have hi' : i < ((List.zipWith (mkRecord t0.flatten vote) ids cells).map
-      (markDirect t0.flatten.hierarchy)).length := by omega
-  have hf := hpt i _ out[i] (List.getElem?_eq_getElem hi') (List.getElem?_eq_getElem hi)
-  obtain ⟨e, hre, hne⟩ := hel _ (List.getElem_mem hi')
-  obtain ⟨r', path, h, _, _, _, hlink, hall⟩ := backfill_flatten_spec hwf0 hleaf _ e hre hne
-  rw [hf] at h
-  cases h
-  exact ⟨path, hlink, hall⟩
+            (l ≠ ll → e'.direct = some false ∧ e'.ru = none) :=
+  mapPipeline_leafonly_paths t0 t0.flatten cfg vote ll ids cells order
+    (by simp [runTree, hdrop, hflat]) (by simp only [RawTree.flatten, hleaf])
+    (flatten_nodesAt_leaf (wfb_nodup_hierarchy hwf0) hleaf) hleaf hwf0 hwf hv hlen hnd hproc hcs
+    horder
 
 /-! ### the structure of `drop_level`'s result -/
 
@@ -2990,6 +3013,102 @@ theorem wfb_dropLevel {t t' : RawTree} {l cl : Level} {pre post : List Level}
         obtain ⟨q, hq, hcq⟩ := f.surj c' hc'
         obtain ⟨n, hn, rfl⟩ := (mem_parentNodeList_some t p q).mp hq
         exact ⟨some (p, n), (hpl _).mpr ⟨n, hn, rfl⟩, by rw [(hkids' n hn).2]; exact hcq⟩
+
+/-! ### one-level trees: flatten together with drop_level -/
+
+theorem asLeaves_onelevel {t : RawTree} {ll : Level} (h : t.hierarchy = [ll]) (cl : Level) (k : Node) :
+    t.asLeaves cl k = [k] := by
+  simp only [RawTree.asLeaves, RawTree.levelsBelow, RawTree.levelIdx, h, List.idxOf?_cons,
+    List.idxOf?_nil]
+  by_cases hc : (ll == cl) = true
+  · simp [hc, RawTree.leavesFrom]
+  · simp [hc, RawTree.leavesFrom]
+
+theorem kidsOf_onelevel {t : RawTree} {ll : Level} (h : t.hierarchy = [ll]) (cl : Level)
+    (kids : List Node) : kidsOf t cl kids = kids.map (fun k => (k, [k])) := by
+  simp only [kidsOf, asLeaves_onelevel h]
+
+theorem voteOK_onelevel {κ} {t1 t2 : RawTree} {ll : Level} {vote : Oracle κ}
+    (h1 : t1.hierarchy = [ll]) (h2 : t2.hierarchy = [ll]) (hv : VoteOK t1 vote) : VoteOK t2 vote := by
+  intro p cl kids c hk
+  have := hv p cl kids c hk
+  rw [kidsOf_onelevel h1] at this
+  rw [kidsOf_onelevel h2]
+  exact this
+
+theorem walk_onelevel_congr {κ} {t1 t2 : RawTree} {ll : Level} (vote : Oracle κ) (c : κ)
+    (h1 : t1.hierarchy = [ll]) (h2 : t2.hierarchy = [ll]) (hn : t1.nodesAt ll = t2.nodesAt ll) :
+    walk t1 vote c = walk t2 vote c := by
+  have hw : walkFrom t1 vote c [ll] none = walkFrom t2 vote c [ll] none := by
+    simp only [walkFrom, RawTree.children, h1, h2, List.head?_cons, hn, voteFn,
+      kidsOf_onelevel h1, kidsOf_onelevel h2]
+  simp only [walk, h1, h2, hw]
+
+/-- the hierarchy after `drop_level` ends with the same leaf level -/
+theorem dropLevel_leafLevel {t t' : RawTree} {l cl ll : Level} {pre post : List Level}
+    (hnd : t.hierarchy.Nodup) (h : t.dropLevel l = .ok t')
+    (hs : t.hierarchy = pre ++ l :: cl :: post) (hleaf : t.leafLevel = some ll) :
+    t'.leafLevel = some ll ∧ ll ≠ l := by
+  obtain ⟨_, hh'⟩ := dropLevel_hierarchy h
+  obtain ⟨ys, hys⟩ := List.getLast?_eq_some_iff.mp hleaf
+  have hne : ll ≠ l := by
+    intro he
+    subst he
+    -- ll would be followed by cl
+    have e : ys ++ ll :: [] = pre ++ ll :: (cl :: post) := by rw [← hys, hs]
+    obtain ⟨_, hb⟩ := split_unique ys pre ll [] (cl :: post) (by rw [← hys]; exact hnd) e
+    cases hb
+  have hl_ys : l ∈ ys := by
+    have : l ∈ t.hierarchy := by rw [hs]; simp
+    rw [hys] at this
+    rcases List.mem_append.mp this with h1 | h1
+    · exact h1
+    · simp at h1; exact absurd h1.symm hne
+  refine ⟨?_, hne⟩
+  simp only [RawTree.leafLevel, hh', hys, List.erase_append_left _ hl_ys]
+  simp
+
+/-- **with flatten, drop_level is irrelevant**: the run tree is the one-level
+tree of the same leaves either way, so the whole output is the same -/
+theorem mapPipeline_flatten_ignores_drop {κ} (t0 t' : RawTree) (cfg : Config) (vote : Oracle κ)
+    (l cl : Level) (pre post : List Level)
+    (ids : List CellId) (cells : List κ) (order : List Nat)
+    (hdrop : t0.dropLevel l = .ok t') (hs : t0.hierarchy = pre ++ l :: cl :: post)
+    (hwf0 : wfb t0 = true) (hv : VoteOK t0.flatten vote)
+    (hlen : ids.length = cells.length) (hnd : ids.Nodup)
+    (hproc : 1 ≤ cfg.nProc) (hcs : 1 ≤ cfg.chunkSize)
+    (horder : order.Perm (List.range
+      (chunks cells.length (effChunk cells.length cfg.nProc cfg.chunkSize)).length)) :
+    mapPipeline t0 { cfg with dropLevel := some l, flatten := true } vote ids cells order =
+      mapPipeline t0 { cfg with dropLevel := none, flatten := true } vote ids cells order := by
+  have hnd0 := wfb_nodup_hierarchy hwf0
+  obtain ⟨hl_mem, hh'⟩ := dropLevel_hierarchy hdrop
+  have hwf' := wfb_dropLevel hwf0 hdrop hs
+  have hnd' := wfb_nodup_hierarchy hwf'
+  cases hleaf : t0.leafLevel with
+  | none =>
+    simp only [RawTree.leafLevel, hs] at hleaf
+    simp at hleaf
+  | some ll =>
+    obtain ⟨hleaf', hne⟩ := dropLevel_leafLevel hnd0 hdrop hs hleaf
+    have h1 : t'.flatten.hierarchy = [ll] := by simp only [RawTree.flatten, hleaf']
+    have h2 : t0.flatten.hierarchy = [ll] := by simp only [RawTree.flatten, hleaf]
+    have hn : t'.flatten.nodesAt ll = t0.flatten.nodesAt ll := by
+      rw [flatten_nodesAt_leaf hnd' hleaf', flatten_nodesAt_leaf hnd0 hleaf,
+        drop_nodesAt hdrop (post := cl :: post) hs hnd0 hne]
+    have hrunA : runTree t0 { cfg with dropLevel := some l, flatten := true } = .ok t'.flatten := by
+      have : t0.hierarchy.contains l = true := by simpa using hl_mem
+      simp only [runTree, this, if_true, hdrop]
+    have hrunB : runTree t0 { cfg with dropLevel := none, flatten := true } = .ok t0.flatten := by
+      simp [runTree]
+    rw [mapPipeline_spec t0 t'.flatten _ vote ids cells order hrunA
+        (wfb_flatten hwf' hleaf') (voteOK_onelevel h2 h1 hv) hlen hnd hproc hcs horder,
+      mapPipeline_spec t0 t0.flatten _ vote ids cells order hrunB
+        (wfb_flatten hwf0 hleaf) hv hlen hnd hproc hcs horder]
+    have hmk : mkRecord t'.flatten vote = mkRecord t0.flatten vote := by
+      funext id c
+      simp only [mkRecord, walkD, walk_onelevel_congr vote c h1 h2 hn]
+    rw [hmk, h1, h2]
 
 /-! ### a concrete instance for the non-vacuity examples of `Props/C01, C06, C17` -/
 
